@@ -34,6 +34,7 @@ func main() {
 	bbias := fs.Int("bbias", 0, "bridge op bias")
 	valstatus := fs.Bool("valstatus", false, "validator jail/unjail environment events")
 	stories := fs.Int("stories", 50, "percent of histories with a scripted dispute story")
+	replicas := fs.Int("replicas", 8, "replicas per history (C01)")
 	only := fs.Int("only", 0, "run only this history (1-based)")
 	mintinit := fs.Bool("mintinit", false, "governance starts minting in the bootstrap block")
 	_ = fs.Parse(os.Args[2:])
@@ -45,6 +46,9 @@ func main() {
 		err = h.RunC20Median(*cases, *trace, *stats)
 	case "c20conc":
 		err = h.RunC20Conc(*trace, *stats, *seed, *n, *blocks, *maxops, 2)
+	case "c01":
+		err = h.RunC01(*trace, *stats, *seed, *n, *replicas, h.HistOpts{Blocks: *blocks, MaxOpsPerBlk: *maxops, Boundary: *boundary, GovOps: *gov, TimeJumps: *jumps,
+			MintInitEarly: *mintinit, ValStatus: *valstatus, Stories: *stories})
 	case "c18":
 		err = h.RunC18(*cases, *trace, *stats, *seed)
 	case "hist":
